@@ -42,6 +42,7 @@ LEAN_MODULES = [
     "PyYetiVerif.Props.C01PreEig",
     "PyYetiVerif.Props.C01Cuts",
     "PyYetiVerif.Props.C01CplxUnc",
+    "PyYetiVerif.Props.C01CplxUncFixed",
     "PyYetiVerif.Audit.C01",
 ]
 AUDIT_FILE = "PyYetiVerif/Audit/C01.lean"
@@ -75,7 +76,12 @@ THEOREMS = [
         "cuts_as_documented crit_regimes_partition classify_elastic_spec classify_rb_spec classify_auto_rb_iff "
         # uncoupled equations with complex-dtype coefficients: rigid-body rows, finding F61 (Props/C01CplxUnc.lean)
         "complex_unc_rb_row_is_undamped isSol_unit_mass_scale complex_unc_rb_exact_partial "
-        "complex_unc_damped_rb_counterexample complex_recovery_real_part complex_dtype_real_system_response_is_real"
+        "complex_unc_damped_rb_counterexample complex_recovery_real_part complex_dtype_real_system_response_is_real "
+        # candidate repair of finding F61 (Props/C01CplxUncFixed.lean, about Model/SuCoefCplxUncFixed.lean: the PATCHED
+        # rigid-body rows of corpus/c01_f61_candidate_fix.diff; /repo is unpatched, the current model stays)
+        "isSol_unit_mass_scale_damped complex_unc_rb_exact_fixed rb_step_unit_mass runUnc_map_of_step "
+        "complex_unc_rb_fixed_is_real_path complex_unc_rb_fixed_velo_exact complex_unc_rb_fixed_undamped_unchanged "
+        "complex_unc_damped_rb_counterexample_fixed"
     ).split()
 ]
 TRUSTED = [
